@@ -73,7 +73,7 @@ def tables(rep, f, c):
         return None, None
     rep.ob('C13-O3.len', 'parallel arrays', len(labels) == len(encs), 'LABELS_SORTED and ENCODINGS_IN_LABEL_SORT differ in length',
            None, {'labels': len(labels), 'encodings': len(encs)}, c)
-    rep.floor('C13-O1', 'labels', len(labels), 228, c)
+    rep.floor('C13-O1', 'labels', len(labels), 228, c, exact=True)
     # O1 strictly increasing under (length, bytes from the end)
     bad = [i for i in range(1, len(labels)) if not label_key(labels[i - 1]) < label_key(labels[i])]
     rep.ob('C13-O1.sorted', 'LABELS_SORTED', not bad,
@@ -83,7 +83,7 @@ def tables(rep, f, c):
     rep.ob('C13-O1.lower', 'LABELS_SORTED', not low, 'label table contains upper-case or whitespace bytes: %r' % low[:3], None, None, c)
     # O3 pairing against the WHATWG list (repository copy)
     oracle = parse_label_oracle()
-    rep.floor('C13-O3', 'oracle labels parsed from src/test_labels_names.rs', len(oracle), 228, c)
+    rep.floor('C13-O3', 'oracle labels parsed from src/test_labels_names.rs', len(oracle), 228, c, exact=True)
     mism = []
     for l, e in zip(labels, encs):
         want = oracle.get(l)
@@ -116,7 +116,7 @@ def encoding_names(f):
 
 def names(rep, f, c, labels, encs):
     nm = encoding_names(f)
-    rep.floor('C13-O6', 'encoding statics with a name', len(nm), 40, c)
+    rep.floor('C13-O6', 'encoding statics with a name', len(nm), 40, c, exact=True)
     idx = {l: e for l, e in zip(labels, encs)}
     for st, name in sorted(nm.items()):
         low = name.lower().encode()
